@@ -165,6 +165,34 @@ class VFun2:
         self.arr = arr
 
 
+class VOpt:
+    """a value that is either None or an int (e.g. `n = None` later assigned inside a loop)"""
+
+    def __init__(self, isnone, val):
+        self.isnone, self.val = isnone, val
+
+
+class VStr:
+    """opaque text: an uninterpreted term with a length and character codes"""
+
+    def __init__(self, term):
+        self.term = term
+
+
+class VStrs:
+    """sequence of opaque texts (lines of a file, tokens of a line)"""
+
+    def __init__(self, term):
+        self.term = term
+
+
+class VChar:
+    """one character of an opaque text: its code"""
+
+    def __init__(self, code):
+        self.code = code
+
+
 class VPairs:
     """immutable sequence of pairs of ints (e.g. sorted(enumerate(p), key=snd)): length + two arrays"""
 
@@ -258,6 +286,14 @@ def as_bool(v):
         return {'ISeq': specs.ilen, 'CSeq': specs.clen, 'OSeq': specs.olen}[v.sortname](v.term) > 0
     if isinstance(v, VCon):
         return True
+    if isinstance(v, VOpt):
+        return z3.And(z3.Not(v.isnone), v.val != 0)
+    if isinstance(v, VStr):
+        return specs.slen(v.term) > 0
+    if isinstance(v, VStrs):
+        return specs.sslen(v.term) > 0
+    if isinstance(v, VArr):
+        return toz(v.length) > 0
     if isinstance(v, VObj):
         return True
     raise Unsupported('truthiness of {!r}'.format(v))
@@ -454,6 +490,10 @@ class Engine:
             return VOpaque(base)
         if ty.startswith('class:'):
             return VClass(ty[6:], self.fresh(base))
+        if ty == 'lines':
+            return VStrs(self.fresh(base, specs.SSeq))
+        if ty == 'textfile':
+            return VOpaque('textfile')
         if ty == 'opaquestr':
             return '<str>'
         if ty == 'optstr':
@@ -636,6 +676,8 @@ class Engine:
         old = {k: self.snapshot(v) for k, v in env.items()}
         entry = dict(env)      # parameter names in postconditions denote the objects passed in (python may rebind the local)
         self.frames = [dict(contract=c, old=old, loopno=0, yields=[], rel=rel, qual=qual, node=node)]
+        for k in self.yield_sites(self.frames[0]).values():
+            env['_y{}'.format(k)] = z3.IntVal(0)
         outcome = ('normal', None)
         try:
             self.exec_block(node.body, env)
@@ -828,6 +870,10 @@ class Engine:
         raise Unsupported('assignment target')
 
     def unpack(self, v, n, node):
+        if isinstance(v, VStrs):
+            if self.branch(specs.sslen(v.term) != n):
+                raise PyExc('ValueError', node.lineno)
+            return [VStr(specs.ssget(v.term, z3.IntVal(i))) for i in range(n)]
         if isinstance(v, VTuple):
             if len(v.items) != n:
                 raise PyExc('ValueError', node.lineno)
@@ -865,6 +911,8 @@ class Engine:
                                 names.add(b.id)
                             elif isinstance(b, ast.Attribute):
                                 attrs.add(ast.unparse(b))
+            if isinstance(n, ast.Yield):
+                names.add('_y*')
             if isinstance(n, ast.Call) and isinstance(n.func, ast.Attribute) and \
                     n.func.attr in ('append', 'pop', 'insert', 'remove', 'sort', 'extend', 'add', 'update', 'reverse'):
                 b = n.func.value
@@ -905,6 +953,12 @@ class Engine:
         if isinstance(v, (VSet2, VFun2)):
             v.arr = self.fresh(name, v.arr.sort())
             return v
+        if v is None or isinstance(v, VOpt):
+            return VOpt(self.fresh(name + '_isnone', z3.BoolSort()), self.fresh(name))
+        if isinstance(v, VStr):
+            return VStr(self.fresh(name, specs.Str))
+        if isinstance(v, VStrs):
+            return VStrs(self.fresh(name, specs.SSeq))
         if v is UNBOUND:
             return self.fresh(name)
         if isinstance(v, str):
@@ -933,6 +987,9 @@ class Engine:
     def havoc_loop(self, body, env, spec, extra_names=()):
         names, attrs = self.assigned_names(body)
         names |= set(extra_names)
+        if '_y*' in names:
+            names.discard('_y*')
+            names |= {k for k in env if k.startswith('_y') and k[2:].isdigit()}
         havoced = set(names)
         for x in spec.get('modifies_objects', []):       # objects mutated through callee contracts
             o = self.spec_eval(x, env)
@@ -1038,6 +1095,10 @@ class Engine:
             niter = it.length
             arr0 = it.arr
             elem = lambda i: z3.Select(arr0, i)
+        elif isinstance(it, VStrs):
+            niter = specs.sslen(it.term)
+            st0 = it.term
+            elem = lambda i: VStr(specs.ssget(st0, i))
         elif isinstance(it, VPairs):
             niter = it.length
             pf, ps = it.first, it.second
@@ -1092,19 +1153,31 @@ class Engine:
         return v
 
     # ------------------------------------------------------------------ yield
+    def yield_sites(self, fr):
+        if 'yield_ids' not in fr:
+            ys = [n for n in ast.walk(fr['node']) if isinstance(n, (ast.Yield, ast.YieldFrom))]
+            ys.sort(key=lambda n: (n.lineno, n.col_offset))
+            fr['yield_ids'] = {id(n): i for i, n in enumerate(ys)}
+        return fr['yield_ids']
+
     def do_yield(self, y, env):
+        """every yield is checked against the clauses of its site (`yields_at[k]`, k = ordinal of the yield in source
+        order) or the common `yields`; the ghost counter _y<k> counts the values yielded at site k"""
         fr = self.frames[-1]
         c = fr['contract']
         if isinstance(y, ast.YieldFrom):
             raise Unsupported('yield from')
         v = self.eval(y.value, env)
-        specs_y = c.get('yields')
+        k = self.yield_sites(fr).get(id(y))
+        specs_y = c.get('yields_at', {}).get(k, c.get('yields'))
         if specs_y is None:
             raise Unsupported('yield without a yields contract')
         e2 = dict(env)
         e2['yielded'] = v
         for t in specs_y:
             self.oblige('yield', t, self.spec_eval(t, e2), y.lineno)
+        name = '_y{}'.format(k)
+        env[name] = toz(env.get(name, 0)) + 1
 
     # ------------------------------------------------------------------ expressions
     def spec_eval(self, text, env):
@@ -1188,7 +1261,15 @@ class Engine:
     def ev_BinOp(self, e, env):
         return self.binop(e.op, self.eval(e.left, env), self.eval(e.right, env), e)
 
+    def unopt(self, v, node):
+        if isinstance(v, VOpt):
+            if not getattr(self, 'in_spec', False):
+                self.oblige('hazard', 'value is not None in {}'.format(ast.unparse(node)), z3.Not(v.isnone), node.lineno)
+            return v.val
+        return v
+
     def binop(self, op, a, b, node):
+        a, b = self.unopt(a, node), self.unopt(b, node)
         if isinstance(a, VTerms) and isinstance(b, VTuple) and isinstance(op, ast.Add) and len(b.items) == 2:
             return VCon(a.term, b.items[0], b.items[1])
         if isinstance(a, (VTuple,)) and isinstance(b, VTuple) and isinstance(op, ast.Add):
@@ -1260,6 +1341,31 @@ class Engine:
         if isinstance(op, (ast.Eq, ast.NotEq)) and (isinstance(a, str) != isinstance(b, str)) and \
                 (isinstance(a, (VArr, VRange, VPairs, VTuple, VSeq)) or isinstance(b, (VArr, VRange, VPairs, VTuple, VSeq))):
             return isinstance(op, ast.NotEq)         # a list never equals a string
+        if isinstance(a, VChar) or isinstance(b, VChar):
+            c, x = (a, b) if isinstance(a, VChar) else (b, a)
+            if isinstance(x, str) and len(x) == 1 and isinstance(op, (ast.Eq, ast.NotEq)):
+                r = c.code == ord(x)
+                return r if isinstance(op, ast.Eq) else z3.Not(r)
+            if isinstance(x, str) and isinstance(op, (ast.Eq, ast.NotEq)):
+                return isinstance(op, ast.NotEq)
+            raise Unsupported('character comparison')
+        if isinstance(a, VOpt) or isinstance(b, VOpt):
+            o, x = (a, b) if isinstance(a, VOpt) else (b, a)
+            if isinstance(op, (ast.Is, ast.IsNot)) and x is None:
+                return o.isnone if isinstance(op, ast.Is) else z3.Not(o.isnone)
+            if isinstance(op, (ast.Eq, ast.NotEq)):
+                if x is None:
+                    r = o.isnone
+                elif isinstance(x, VOpt):
+                    r = z3.Or(z3.And(o.isnone, x.isnone), z3.And(z3.Not(o.isnone), z3.Not(x.isnone), o.val == x.val))
+                else:
+                    r = z3.And(z3.Not(o.isnone), o.val == toz(x))
+                return r if isinstance(op, ast.Eq) else z3.Not(r)
+            # ordering with a possibly-None value: TypeError unless it is an int
+            if not getattr(self, 'in_spec', False):
+                self.oblige('hazard', 'value is not None in {}'.format(ast.unparse(node)), z3.Not(o.isnone), node.lineno)
+            a = a.val if isinstance(a, VOpt) else a
+            b = b.val if isinstance(b, VOpt) else b
         if isinstance(op, (ast.Is, ast.IsNot)):
             if a is None or b is None:
                 other = b if a is None else a
@@ -1356,7 +1462,7 @@ class Engine:
                 r = o.fields[e.attr[:-3]]
                 return toz(r.lo) if e.attr.endswith('_lo') else toz(r.hi)
             return ('method', o, e.attr)
-        if isinstance(o, (VTuple, VMList, VArr, VSeq, VOpaque, VArr2, VRow, VSet2)) or isinstance(o, str):
+        if isinstance(o, (VTuple, VMList, VArr, VSeq, VOpaque, VArr2, VRow, VSet2, VStr, VStrs)) or isinstance(o, str):
             return ('method', o, e.attr)
         if isinstance(o, tuple) and o[0] == 'global':
             return ('global', o[1] + '.' + e.attr)
@@ -1391,8 +1497,8 @@ class Engine:
             return r
         if isinstance(base, VArr):
             if getattr(self, 'in_spec', False):
-                i = toz(idx)
-                return sel(base.arr, z3.If(i >= 0, i, base.length + i))
+                # in contract expressions list indices are plain (non-negative) positions: no python wrap-around
+                return sel(base.arr, toz(idx))
             return sel(base.arr, self.norm_index(idx, base.length, e))
         if isinstance(base, (VSeq, VMList)):
             t = base.term
@@ -1435,6 +1541,12 @@ class Engine:
             return self.call_method(base, '__getitem__', [idx], {}, e)
         if isinstance(base, VOpaque):
             return '<str>'
+        if isinstance(base, VStr):
+            i = toz(idx) if getattr(self, 'in_spec', False) else self.norm_index(idx, specs.slen(base.term), e)
+            return VChar(specs.charat(base.term, i))
+        if isinstance(base, VStrs):
+            i = toz(idx) if getattr(self, 'in_spec', False) else self.norm_index(idx, specs.sslen(base.term), e)
+            return VStr(specs.ssget(base.term, i))
         if isinstance(base, VPairs):
             i = toz(idx) if getattr(self, 'in_spec', False) else self.norm_index(idx, base.length, e)
             return VTuple([sel(base.first, i), sel(base.second, i)], 'tuple')
@@ -1533,6 +1645,31 @@ class Engine:
                     self.oblige('hazard', 'table indices in bounds: {}'.format(ast.unparse(e)),
                                 specs.maxabs(it.term) < toz(table.length), e.lineno)
                 return VSeq(specs.imapsub(it.term, table.arr, toz(table.length)))
+        if isinstance(it, VStrs) and isinstance(g.target, ast.Name):
+            # [f(tok) for tok in tokens]: one value per token; f may be demonic (int()) and may raise for some token
+            t = self.fresh('tok_' + g.target.id)
+            n = specs.sslen(it.term)
+            e2 = dict(env)
+            e2[g.target.id] = VStr(specs.ssget(it.term, t))
+            saved = len(self.pc)
+            self.pc.append(z3.And(t >= 0, t < n))
+            self.demonic = []
+            try:
+                body = self.eval(e.elt, e2)        # a ValueError of the element propagates (the path with the raise)
+                facts = list(self.pc[saved + 1:])
+            finally:
+                del self.pc[saved:]
+                dem, self.demonic = self.demonic, None
+            if not (is_z3(body) and z3.is_int(body)):
+                raise Unsupported('comprehension over tokens: element is not an int')
+            subs = []
+            for c in dem:
+                arr = self.fresh('dem_arr', z3.ArraySort(z3.IntSort(), c.sort()))
+                subs.append((c, z3.Select(arr, t)))
+            body = z3.substitute(body, *subs) if subs else body
+            for f in facts:
+                self.pc.append(z3.ForAll([t], z3.Implies(z3.And(t >= 0, t < n), z3.substitute(f, *subs))))
+            return VArr(n, z3.Lambda([t], body))
         if isinstance(it, VTerms) and isinstance(g.target, ast.Tuple) and len(g.target.elts) == 2:
             c, l = [x.id for x in g.target.elts]
             if ast.unparse(e.elt) == '(-{}, {})'.format(c, l):
@@ -1801,16 +1938,27 @@ class Engine:
             if isinstance(cur, VMList):
                 if not isinstance(v, (VSeq, VMList)):
                     return False
+                self.pc.append(cur.term == v.term)      # facts already stated about the havoced symbol stay valid
                 cur.term = v.term
             elif isinstance(v, (VSeq, VMList, VTuple, VObj, VArr, VTerms, VCon)):
                 return False
             else:
+                if is_z3(cur) and cur.sort() == toz(v).sort():
+                    self.pc.append(cur == toz(v))
                 o.fields[lhs.attr] = toz(v)
             return True
         if isinstance(lhs, ast.Name) and lhs.id in env:
             if isinstance(v, (VMList,)):
                 return False
-            env[lhs.id] = v if isinstance(v, (VSeq,)) else toz(v)
+            cur = env[lhs.id]
+            if isinstance(v, VSeq):
+                if isinstance(cur, VSeq):
+                    self.pc.append(cur.term == v.term)
+                env[lhs.id] = v
+            else:
+                if is_z3(cur) and cur.sort() == toz(v).sort():
+                    self.pc.append(cur == toz(v))
+                env[lhs.id] = toz(v)
             return True
         return False
 
@@ -1847,6 +1995,8 @@ class Engine:
         if isinstance(o, VOpaque):
             if meth in ('append',):
                 return None
+            if meth == 'readlines' and o.what == 'textfile':
+                return lm_readlines(self, node, o)
             raise Unsupported('method {} on opaque value {}'.format(meth, o.what))
         if isinstance(o, VObj):
             # where is the class?
@@ -2005,6 +2155,20 @@ def sf_forall_int(eng, node, env):
     for a, v in zip(lam.args.args, vs):
         e2[a.arg] = v
     body = eng.eval(lam.body, e2)
+    if len(node.args) > 1:
+        # explicit trigger(s): forall(lambda u: body, lambda u: term)  - the quantifier is instantiated where `term` occurs
+        pl = node.args[1]
+        e3 = dict(env)
+        for a, v in zip(pl.args.args, vs):
+            e3[a.arg] = v
+        pats = pl.body.elts if isinstance(pl.body, ast.Tuple) else [pl.body]
+        terms = [toz(eng.eval(pt, e3)) for pt in pats]
+        if not all(any(_mentions(t, v) for t in terms) for v in vs) or any(specs._has_ite(t) for t in terms):
+            return z3.ForAll(vs, toz(body))
+        try:
+            return z3.ForAll(vs, toz(body), patterns=[z3.MultiPattern(*terms)] if len(terms) > 1 else terms)
+        except z3.Z3Exception:
+            pass
     return z3.ForAll(vs, toz(body))
 
 
@@ -2078,6 +2242,10 @@ def b_len(eng, node, v):
         return v.length
     if isinstance(v, VPairs):
         return v.length
+    if isinstance(v, VStr):
+        return specs.slen(v.term)
+    if isinstance(v, VStrs):
+        return specs.sslen(v.term)
     if isinstance(v, VSet2):
         return specs.card2(v.arr)
     if isinstance(v, VRow):
@@ -2131,6 +2299,18 @@ def b_range(eng, node, *args):
     return VRange(args[0], args[1], args[2])
 
 
+def b_allany_raw(eng, node, env):
+    arg = node.args[0]
+    if isinstance(arg, (ast.GeneratorExp, ast.ListComp)):
+        it = eng.eval(arg.generators[0].iter, env)
+        if isinstance(it, VStrs):
+            return eng.fresh('allany', z3.BoolSort())     # predicates over opaque tokens: either answer (string methods assumed not to raise)
+    raise Unsupported('all()/any() of this shape')
+
+
+b_allany_raw.raw = True
+
+
 def b_list(eng, node, v=None):
     if v is None:
         return VTuple([], 'list')
@@ -2152,6 +2332,8 @@ def b_list(eng, node, v=None):
         return a
     if isinstance(v, VArr):
         return VArr(v.length, v.arr)
+    if isinstance(v, VStrs):
+        return v
     raise Unsupported('list() of {!r}'.format(v))
 
 
@@ -2181,6 +2363,14 @@ def b_isgenerator(eng, node, v):
 def b_int(eng, node, v):
     if isinstance(v, int) or (is_z3(v) and z3.is_int(v)):
         return v
+    if isinstance(v, VStr):
+        # int(text): ValueError or some integer (demonic)
+        if eng.choose(2) == 1:
+            raise PyExc('ValueError', node.lineno)
+        c = eng.fresh('parsed_int')
+        if getattr(eng, 'demonic', None) is not None:
+            eng.demonic.append(c)
+        return c
     raise Unsupported('int() of non-int')
 
 
@@ -2239,7 +2429,7 @@ def b_next(eng, node, a):
     raise Unsupported('next of symbolic iterator')
 
 
-BUILTINS = {'sorted': lambda eng, node, seq, key=None: lib_sorted(eng, node, seq, key), 'len': b_len, 'abs': b_abs, 'min': b_minmax('min'), 'max': b_minmax('max'), 'range': b_range,
+BUILTINS = {'all': b_allany_raw, 'any': b_allany_raw, 'sorted': lambda eng, node, seq, key=None: lib_sorted(eng, node, seq, key), 'len': b_len, 'abs': b_abs, 'min': b_minmax('min'), 'max': b_minmax('max'), 'range': b_range,
             'list': b_list, 'tuple': b_list, 'isinstance': b_isinstance, 'int': b_int, 'zip': b_zip,
             'enumerate': b_enumerate, 'sum': b_sum_raw, 'next': b_next, 'iter': lambda eng, node, v: v}
 
@@ -2441,11 +2631,36 @@ def lib_copy(eng, node, x):
     raise Unsupported('copy of {!r}'.format(x))
 
 
+def lm_str_strip(eng, node, o, *a):
+    r = VStr(eng.fresh('stripped', specs.Str))
+    eng.pc.append(specs.slen(r.term) <= specs.slen(o.term))
+    return r
+
+
+def lm_str_split(eng, node, o, *a):
+    """str.split(): tokens are non-empty texts; no token iff the text has only blanks"""
+    r = VStrs(eng.fresh('tokens', specs.SSeq))
+    j = z3.Int('j!tok')
+    eng.pc.append(z3.ForAll([j], z3.Implies(z3.And(0 <= j, j < specs.sslen(r.term)), specs.slen(specs.ssget(r.term, j)) > 0)))
+    eng.pc.append(z3.Implies(specs.slen(o.term) == 0, specs.sslen(r.term) == 0))
+    return r
+
+
+def lm_str_pred(eng, node, o, *a):
+    return eng.fresh('strpred', z3.BoolSort())      # isascii / isdigit / startswith ...: either answer
+
+
+def lm_readlines(eng, node, o):
+    return VStrs(eng.fresh('lines', specs.SSeq))
+
+
 LIBRARY['random.choice'] = lib_random_choice
 LIBRARY['random.shuffle'] = lib_random_shuffle
 LIBRARY['copy.copy'] = lib_copy
 LIBRARY['copy'] = lib_copy
 LIBRARY['bisect.bisect_right'] = lib_bisect_right
-LIST_METHODS = {('VArr2', 'get'): lm_dict_get, ('VRow', 'insert'): lm_row_insert, ('VRow', 'remove'): lm_row_remove, ('VArr2', 'append'): lm_arr2_append,
+LIST_METHODS = {('VStr', 'strip'): lm_str_strip, ('VStr', 'split'): lm_str_split, ('VStr', 'isascii'): lm_str_pred,
+                ('VStr', 'isdigit'): lm_str_pred, ('VStr', 'startswith'): lm_str_pred, ('VStr', 'lstrip'): lm_str_strip,
+                ('VStr', 'rstrip'): lm_str_strip, ('VOpaqueFile', 'readlines'): lm_readlines, ('VArr2', 'get'): lm_dict_get, ('VRow', 'insert'): lm_row_insert, ('VRow', 'remove'): lm_row_remove, ('VArr2', 'append'): lm_arr2_append,
                 ('VSet2', 'add'): lm_set_add, ('VSet2', 'remove'): lm_set_remove,('VTuple', 'append'): lm_append, ('VMList', 'append'): lm_append, ('VArr', 'append'): lm_append,
                 ('VTuple', 'pop'): lm_pop, ('VArr', 'pop'): lm_pop}
